@@ -134,6 +134,14 @@ def run(ctx):
     from .c16 import rule_ns_of_tag
     rule_ns_of_tag(ctx, mir, rid="R05.12")
 
+    # ------------------------------------------------------------------ R05.13 (= R03.2), R05.14 (stack directive, clause of R04.5)
+    # what counts as an element at all (text-mode switching tags) and where an element's scope ends
+    from .c03 import rule_tag_tables
+    rule_tag_tables(ctx, _index5(), spec_tables(), rid="R05.13")
+    from .c04 import clause_stack_directive
+    r = ctx.rule("R05.14", "the scope of a matched element ends where the open-element stack says: Stack::get_stack_directive implements the table (Html: void -> PopImmediately, else Push; foreign: PushIfNotSelfClosing)", "E-ABS", floor=1)
+    clause_stack_directive(r, _index5())
+
     ctx.not_decided += ["exactly-once delivery over all open/close sequences (needs the selector VM's run-time behaviour)", "text flushed before a tag is reported is rule R02.4 (C02)"]
     return ("Bookkeeping clauses of scoped dispatch read from the expanded syntax tree and MIR: balance and independence of handler activation, "
             "the kind/flag/token table across four functions, registration and iteration order, one-shot consumption of element/end-tag/end handlers.")
